@@ -104,22 +104,20 @@ SPEC = {
                 'constant block, SeqNumRange.Contains (C13_gen.v); filterOutExecutedMessages is refused by the translator and stays hand-modelled. Not modelled (swept '
                 'only): the 291 rows marked so in docs/c13_sites.md',
     'level_text': 'PARTIAL. Proof: 79 closed Coq theorems. 69 property theorems over res-monad (Ok / Err / Panic / Spin) models of panic and non-termination sites. First '
-                  'batch (14): the custom unmarshalers never panic for any byte string; any previous-outcome state string is rejected or advanced '
-                  '(C13_exec_state_never_panics); the repaired message-range loop is total and refines the original; validated aggregates never dereference nil; the RMN '
-                  'controller never panics and returns by the deadline for every event list (C06); truncation is total (C17). Second batch (55, PanicSites2): for each of '
-                  '26 (guard, use) pairs "the function as it stands never panics / spins for ALL inputs" (C13_<site>_never_panics) plus a _guard_needed_refuted witness '
-                  'that the bare use panics (zip loops: panics iff the indexed list is shorter); for the five sites that had NO guard (F70..F74, repaired in /repo) the '
-                  'repaired function is total and equal to the original wherever that one returned, with _unfixed_refuted witnesses; also refuted: F19a, F19b, F20-class '
-                  'truncation, unvalidated median. Judge soundness (10 C13_judge_*): sweep sinks accept exactly "returned"; site sinks accept the model\'s code and imply '
+                  'batch (14): the custom unmarshalers never panic for any byte string; any previous-outcome state string is rejected or advanced; the repaired '
+                  'message-range loop is total and refines the original; validated aggregates never dereference nil; the RMN controller never panics and returns by the '
+                  'deadline for every event list (C06); truncation is total (C17). Second batch (55, PanicSites2): for each of 26 (guard, use) pairs "the function as it '
+                  'stands never panics / spins for ALL inputs" (C13_<site>_never_panics) plus a _guard_needed_refuted witness that the bare use panics; for the five '
+                  'sites that had NO guard (F70..F74, repaired in /repo) the repaired function is total and equal to the original wherever that one returned, with '
+                  '_unfixed_refuted witnesses. Judge soundness (10 C13_judge_*): sweep sinks accept exactly "returned"; site sinks accept the model\'s code and imply '
                   'no_crash; borrowed sinks are judged for the termination kind only. Correspondence, every run: exhaustive single-site JSON mutation sweep of honest '
-                  'traffic through every callback of both real plugins under recover() and a starvation-aware watchdog, plus raw byte streams (about 100 000 cases); '
-                  'every answer of the scripted contract readers below the real ccipChainReader mutated at every node (C13_reader_*); directed boundary classes drive the '
-                  'REAL (guard, use) pairs and must agree with the models code for code (C13_sites_*, about 900 cases); the context Query hands to the RMN controller is '
-                  'inspected (bounded by RMNSignaturesTimeout and by the caller, cancelled with it: C13_query_ctx); the C06 anomaly-pair sweep and the function harnesses '
-                  'of C08, C09, C17 and the C11 history parts (long-lived plugins) are re-run and judged for panics / hangs. Translation tie (5 theorems, C13_gen.v): '
-                  'PluginState.Next, IsValid, SeqNumRange.Contains. Partial because a theorem excludes panics only at MODELLED sites: of 788 analyser-listed sites '
-                  '(docs/c13_sites.md) 356 are modelled and proved, 291 are swept only (sort comparators, map writes into fresh maps, make sizes, receiver fields, '
-                  'token-data HTTP client, merges, event decoding), 141 unreachable; hangs are modelled as unbounded loops and missing context checks, not as scheduling.',
+                  'traffic through every callback of both real plugins under recover() and a watchdog, plus raw byte streams (about 100 000 cases); every answer of the '
+                  'scripted contract readers below the real ccipChainReader mutated at every node (C13_reader_*); directed boundary classes drive the REAL (guard, use) '
+                  'pairs and must agree with the models code for code (C13_sites_*); the context Query hands to the RMN controller is inspected (C13_query_ctx); the C06 '
+                  'anomaly-pair sweep, the function harnesses of C08, C09, C17 and the C11 history parts are re-run and judged for panics / hangs. Translation tie (5 '
+                  'theorems, C13_gen.v): PluginState.Next, IsValid, Contains. Partial because a theorem excludes panics only at MODELLED sites: of 788 analyser-listed '
+                  'sites (docs/c13_sites.md) 356 are modelled and proved, 291 are swept only, 141 unreachable; hangs are modelled as unbounded loops and missing context '
+                  'checks, not as scheduling.',
     'level_note': 'Partial by nature: code the models abstract (logging, third-party libraries, goroutine scheduling) is covered by the sweeps only, which are tests, not '
                   'proofs. Trusted: Coq kernel, hand-written models and theorem statements, differential harness (watchdogs never depend on the wall clock alone, '
                   'docs/timing_audit.md), leaf translator, the go/types + call-graph analyser that lists the sites. Specific: encoding/json, protobuf, math/big, '
